@@ -221,7 +221,9 @@ def field_ty(D, f, where, counts):
     if m or vm:
         if not (m and vm):
             raise TranslateError(where, "Vec without count or count without Vec")
-        return {"k": "vec", "count": m.group(1), "elt": vm.group(1)}
+        orp, owp, rest_attrs = odd_pads(attrs, f["name"], m.group(1), where)
+        f["attrs"] = rest_attrs
+        return {"k": "vec", "count": m.group(1), "elt": vm.group(1), "odd_r": orp, "odd_w": owp}
     leftovers = [a for a in attrs if re.match(r"(br|bw|brw)\(", a) and not re.fullmatch(r"brw?\(\s*pad_(before|after)\s*=\s*\d+\s*\)|bw\(\s*pad_(before|after)\s*=\s*\d+\s*\)|br\(\s*pad_(before|after)\s*=\s*\d+\s*\)", a)]
     if leftovers:
         raise TranslateError(where, f"unsupported attribute(s): {leftovers}")
@@ -258,6 +260,27 @@ def type_ty(D, ty, where):
     if ty in D.structs:
         return {"k": "struct", "name": ty}
     raise TranslateError(where, f"unknown field type {ty!r}")
+
+
+def odd_pads(attrs, vecname, countname, where):
+    """`pad_after = if <count> % 2 == 1 { N } else { 0 }` (read) / `if <vec>.len() % 2 == 1 { N } else { 0 }` (write)"""
+    r = w = 0
+    rest = []
+    for a in attrs:
+        m = re.fullmatch(r"(br|bw)\(\s*pad_after\s*=\s*if\s+(.+?)\s*%\s*2\s*==\s*1\s*\{\s*(\d+)\s*\}\s*else\s*\{\s*0\s*\}\s*\)", a)
+        if not m:
+            rest.append(a)
+            continue
+        side, subject, n = m.group(1), m.group(2).strip(), int(m.group(3))
+        if side == "br":
+            if subject != countname:
+                raise TranslateError(where, f"conditional read pad depends on {subject!r}, expected the count field {countname!r}")
+            r = n
+        else:
+            if subject != f"{vecname}.len()":
+                raise TranslateError(where, f"conditional write pad depends on {subject!r}, expected {vecname}.len()")
+            w = n
+    return r, w, rest
 
 
 def pads(attrs, where):
@@ -311,6 +334,7 @@ def flatten_struct(D, sname, prefix, where, targ=None, depth=0):
             f = dict(f, ty=targ)
         if tail is not None:
             raise TranslateError(w2, "field after a variable-length tail")
+        f = dict(f)
         t = field_ty(D, f, w2, counts)
         rb, ra, wb, wa = pads(f["attrs"], w2)
         path = prefix + f["name"]
@@ -351,7 +375,7 @@ def flatten_struct(D, sname, prefix, where, targ=None, depth=0):
                 sub, subasserts = [{"path": "", "ty": et, "rb": 0, "ra": 0, "wb": 0, "wa": 0}], []
             if rb or ra or wb or wa:
                 raise TranslateError(w2, "pads on a vector field are not supported")
-            tail = {"k": "vec", "path": path, "count": t["count"], "elt": sub, "elt_asserts": subasserts}
+            tail = {"k": "vec", "path": path, "count": t["count"], "elt": sub, "elt_asserts": subasserts, "odd_r": t["odd_r"], "odd_w": t["odd_w"]}
         elif t["k"] == "tailset":
             if t["count"] not in counts or counts[t["count"]]["of"] != f["name"]:
                 raise TranslateError(w2, f"count field {t['count']} is not `calc`ed from this collection")
@@ -432,7 +456,7 @@ def lean_field(f):
 def lean_tail(t):
     if t is None: return ".none"
     if t["k"] == "vec":
-        return ".vec [" + ", ".join(lean_field(f) for f in t["elt"]) + "]"
+        return ".vec [" + ", ".join(lean_field(f) for f in t["elt"]) + f"] {t['odd_r']} {t['odd_w']}"
     if t["k"] == "set":
         return f".set .{t['id']}"
     if t["k"] == "streof":
